@@ -136,8 +136,8 @@ func main() {
 		pools[i] = make(chan *srvInst, 16)
 	}
 
-	nTable := run.N(150, 1500)
-	nHist := run.N(60, 600)
+	nTable := run.N(700, 8000)
+	nHist := run.N(300, 3000)
 	run.Parallel(nTable+nHist, 12, func(c *h.Case) {
 		t0 := time.Now()
 		if c.Idx < nTable {
@@ -153,12 +153,15 @@ func main() {
 		}
 	})
 
+	var wg sync.WaitGroup
 	allSrv.mu.Lock()
 	for _, s := range allSrv.l {
-		s.srv.Close()
+		wg.Add(1)
+		go func(s *srvInst) { defer wg.Done(); s.srv.Close() }(s)
 	}
 	allSrv.mu.Unlock()
-	run.Finish(run.N(1500, 15000))
+	wg.Wait()
+	run.Finish(run.N(5000, 50000))
 }
 
 // ---------------------------------------------------------------------------------------------
@@ -186,4 +189,10 @@ func waitSessionGone(s *srvInst, runID string) bool {
 func fail(err error) {
 	fmt.Fprintln(os.Stderr, "harness:", err)
 	os.Exit(h.ExitHarnessError)
+}
+
+func debugf(format string, args ...any) {
+	if os.Getenv("C06_DEBUG") != "" {
+		fmt.Fprintf(os.Stderr, format+"\n", args...)
+	}
 }
